@@ -49,9 +49,10 @@ ScaleSizes(f) ==
     \* check must not depend on the load of the machine); 11 and 12 are recorded as an open finding
     [] f \in {"cyc", "cycopt"} -> IF ScaleTier = "quick" THEN {2, 3, 4, 5, 6, 7, 8, 9, 11} ELSE {2, 3, 4, 5, 6, 7, 8, 9, 11, 12}
     \* aliases that name the alias before them twice ('typealias A3 = Result<A2, A2>') and compact key structs that hold the one
-    \* before them twice: what is walked doubles with every level (24 levels: a second; 28: at the bound, left out; 32: recorded
-    \* as an open finding)
-    [] f \in {"aliasdouble", "keydouble"} -> IF ScaleTier = "quick" THEN {4, 12, 20, 24, 32} ELSE {2, 4, 8, 12, 16, 20, 22, 24, 32}
+    \* before them twice: what is walked doubles with every level.  20 levels take a second when the request is encoded too
+    \* (24 levels: 1 s to validate, 16 s to encode - too close to the bound for a check that must not depend on the machine,
+    \* as a run in a fresh sandbox showed; left out); 32 levels are recorded as an open finding
+    [] f \in {"aliasdouble", "keydouble"} -> IF ScaleTier = "quick" THEN {4, 12, 16, 20, 32} ELSE {2, 4, 8, 12, 16, 18, 20, 32}
     [] f = "ifacedense" -> IF ScaleTier = "quick" THEN {4, 8, 12, 16, 20, 24, 28, 32, 40} ELSE 2..40   \* (40 interfaces: 5 KiB)
     [] f \in {"seqnest", "dictnest", "resnest", "parens", "nots", "modulenest"} -> IF ScaleTier = "quick" THEN {1, 8, 64, 256, 700} ELSE {1, 2, 4, 8, 16, 32, 64, 128, 256, 512, 700}
     [] f = "files" -> IF ScaleTier = "quick" THEN {1, 16, 64} ELSE {1, 2, 4, 8, 16, 32, 64}
